@@ -26,3 +26,57 @@ Theorem C14_schedule_independent : forall T t_eqb univ null union inter single f
 Proof. exact solve_order_independent. Qed.
 
 Print Assumptions C14_schedule_independent.
+
+(* ------------------------------------------------------------------------------------------------------------
+   Extension (third round): regenerated worklist solver (Lemmas/SolverGenLemmas.v) *)
+From Coq Require Import List String NArith ZArith Bool Arith.
+From Tealer Require Import Tables Syntax Parse Cfg StackAst Analysis Domains GraphGen SolverGen SolverLemmas GraphGenLemmas SolverGenLemmas.
+
+(* the worklist iteration (forward_analyis / backward_analysis / _merge_information_forward/backward) REGENERATED from generic.py (tools/translate_solver.py -> Gen/SolverGen.v) equals the model's solve for one analysis key, with the same fuel (exceptions = Exn, exhausted fuel = OutOfFuel) *)
+Theorem C14_solver_regenerated :
+  forall (T : Type) (t_eqb : T -> T -> bool) (univ null : string -> T) (union inter : string -> T -> T -> T)
+         (single : string -> instr -> nat -> list sval -> T * T) (f : func) (key : string) (fuel : nat) (bc : state T),
+       main_name_fresh f ->
+       NoDup (ids f) ->
+       solve_gen T t_eqb univ null union inter single f fuel (key :: nil) ((key, bc) :: nil) =
+       erase
+         (omap (fun lo : list (nat * T) => (key, lo) :: nil) (solve T t_eqb (univ key) (null key) (union key) (inter key) (single key) f fuel bc)).
+Proof. exact @solve_gen_eq. Qed.
+
+(* the `updated` flag of a block is the disjunction over all keys (the regression that overwrote it per key falsifies this) *)
+Theorem C14_changed_flag_accumulates :
+  forall (T : Type) (t_eqb : T -> T -> bool) (univ null : string -> T) (union inter : string -> T -> T -> T)
+         (single : string -> instr -> nat -> list sval -> T * T) (f : func) (k : string) (ks : list string) (block : nat) 
+         (gr bcs : gdict T),
+       merge_information_forward_gen T t_eqb univ null union inter single f (k :: ks) block gr bcs =
+       KeysGen.bind (merge_information_forward_gen T t_eqb univ null union inter single f (k :: nil) block gr bcs)
+         (fun r1 : bool * gdict T =>
+          KeysGen.bind (merge_information_forward_gen T t_eqb univ null union inter single f ks block (snd r1) bcs)
+            (fun r2 : bool * gdict T => KeysGen.ret (fst r1 || fst r2, snd r2))).
+Proof. exact @merge_information_forward_gen_cons. Qed.
+
+(* schedule independence restated for the regenerated forward pass *)
+Theorem C14_regenerated_schedule_independent :
+  forall (T : Type) (t_eqb : T -> T -> bool) (univ null : string -> T) (union inter : string -> T -> T -> T)
+         (single : string -> instr -> nat -> list sval -> T * T) (f : func) (key : string) (leq : T -> T -> Prop),
+       (forall a : T, leq a a) ->
+       (forall a b c : T, leq a b -> leq b c -> leq a c) ->
+       (forall a b : T, t_eqb a b = true <-> leq a b /\ leq b a) ->
+       (forall a a' b b' : T, leq a a' -> leq b b' -> leq (union key a b) (union key a' b')) ->
+       (forall a a' b b' : T, leq a a' -> leq b b' -> leq (inter key a b) (inter key a' b')) ->
+       (forall a : T, leq (null key) a) ->
+       forall (bcs : gdict T) (fu1 fu2 : nat) (wl1 wl2 : list nat) (bcs1 bcs2 : gdict T),
+       cover_prev_P f ->
+       cover_ret_P f ->
+       main_name_fresh f ->
+       NoDup (ids f) ->
+       (forall b : nat, In b (ids f) -> In b wl1) ->
+       (forall b : nat, In b (ids f) -> In b wl2) ->
+       forward_analyis_gen T t_eqb univ null union inter single f fu1 (key :: nil) wl1 bcs = Some (Some bcs1) ->
+       forward_analyis_gen T t_eqb univ null union inter single f fu2 (key :: nil) wl2 bcs = Some (Some bcs2) ->
+       exists ro1 ro2 : state T, bcs1 = kdict_set T bcs key ro1 /\ bcs2 = kdict_set T bcs key ro2 /\ peq T t_eqb ro1 ro2.
+Proof. exact @forward_order_independent_gen. Qed.
+
+Print Assumptions C14_solver_regenerated.
+Print Assumptions C14_changed_flag_accumulates.
+Print Assumptions C14_regenerated_schedule_independent.
